@@ -33,6 +33,17 @@ def pyScripts : Model.Scripts → Py.PyScripts
   | .root b => .root b
   | .tree t => .tree (pyTree t)
 
+/-- a `type/network:hex` field: the address class and the version byte -/
+def tyPfx : R (String × Bytes) := do
+  let s ← next
+  match s.splitOn ":" with
+  | [tn, h] => (match unhex h with
+      | some b => pure ((tn.splitOn "/").headD "", b)
+      | none => throw "bad netpfx")
+  | _ => throw "bad netpfx"
+
+def b58dec (x : String) : Except PyErr Bytes := match Spec.B58.decode x with | some d => .ok d | none => .error .valueError
+
 /-- as `Driver.ans`, but a function the translator could not translate answers `unsupported` -/
 def ansG {α} (f : α → String) : Except PyErr α → String
   | .ok v => "ok " ++ f v
@@ -84,6 +95,15 @@ def genOps2 : List (String × R String) := [
         | none => .error .valueError
       let enc := fun (r s _n : Int) => Spec.derEncode r.toNat s.toNat
       pure (ansG hex (Gen.sign_input sign dec enc (atts.length - 1) (List.replicate 32 0) (ht : Int)))),
+  ("g:b58_addr", do
+      let (ty, pfx) ← tyPfx; let h ← bytes
+      pure (ansG hexStr (Gen.address_to_string Crypto.sha256 Spec.B58.encode ty pfx pfx h))),
+  ("g:b58_accept", do
+      -- Address.__init__(address=s): validate, then decode
+      let (ty, pfx) ← tyPfx; let s ← str
+      pure (ansG hex (do
+        let v ← Gen.is_address_valid Crypto.sha256 b58dec ty pfx pfx s
+        if v then Gen.address_to_hash160 b58dec s else throw PyErr.valueError))),
   ("g:wif_enc", do
       let pfx ← netPfx; let d ← bytes; let c ← bool
       pure (ansG hexStr (Gen.to_wif Crypto.sha256 Spec.B58.encode pfx d c))),
